@@ -79,8 +79,14 @@ def nested_pair(run, rec):
     null.set_alignment(aln)
     if rec["null"] not in ("JC69", "K80"):
         null.set_motif_probs(pi)
+    status = rec.get("nullstatus", "free")
+    if status == "constant":
+        key0 += ":null-terms-constant"
     for pn, v in rec["nullparams"]:
-        null.set_param_rule(pn, init=float(frac(v)))
+        if status == "constant":
+            null.set_param_rule(pn, value=float(frac(v)), is_constant=True)
+        else:
+            null.set_param_rule(pn, init=float(frac(v)))
     null_lengths = {"a": 0.0, "b": 0.33, "c": 0.07}  # not the tree's own lengths; one sits on the lower bound
     for e, v in null_lengths.items():
         null.set_param_rule("length", edge=e, init=v)
@@ -351,7 +357,7 @@ def check(run: Run):
         seen = set()
         n = 0
         for rec in read_emitted(emit):
-            k = (rec["null"], rec["alt"], json.dumps(rec["nullparams"]))
+            k = (rec["null"], rec["alt"], json.dumps(rec["nullparams"]), rec.get("nullstatus"))
             if k in seen:
                 continue
             seen.add(k)
